@@ -67,8 +67,10 @@ func (k Keeper) RecvPacket(goCtx context.Context, msg *packettypes.MsgRecvPacket
 	}
 
 	if packet.GetDstChain() == k.ClientKeeper.GetChainName(cctx) {
-		// call packet onRecvPacket
-		res, err := k.PacketKeeper.CallPacket(ctx, "onRecvPacket", packet)
+		// call packet onRecvPacket in the cached context: its state changes are kept only if the
+		// callback succeeds; a failed callback is answered with an error acknowledgement and the
+		// sender is refunded, so nothing of it may remain on this chain
+		res, err := k.PacketKeeper.CallPacket(cctx, "onRecvPacket", packet)
 		if err != nil {
 			// Write ErrAck
 			errAckBz, err := packettypes.NewAcknowledgement(1, []byte{}, "receive packet callback failed", relayer, packet.FeeOption).ABIPack()
@@ -91,6 +93,10 @@ func (k Keeper) RecvPacket(goCtx context.Context, msg *packettypes.MsgRecvPacket
 		}
 		if err := k.PacketKeeper.WriteAcknowledgement(ctx, &packet, ackBz); err != nil {
 			return nil, err
+		}
+		if result.Code != 0 {
+			// the packet contract reported a failure: drop what the callback did
+			return &packettypes.MsgRecvPacketResponse{}, nil
 		}
 	} else if _, found := k.ClientKeeper.GetClientState(ctx, packet.GetDstChain()); !found {
 		// Write ErrAck
